@@ -644,6 +644,9 @@ func (t *tScreen) prepareKeys() {
 	t.prepareKey(keyPasteStart, ti.PasteStart)
 	t.prepareKey(keyPasteEnd, ti.PasteEnd)
 	t.prepareXtermModifiers()
+	// The clear key comes after the modifier forms: st describes its kclr
+	// as ESC [ 3 ; 5 ~, which is control-delete in the xterm scheme.
+	t.prepareKey(KeyClear, ti.KeyClear)
 	t.prepareBracketedPaste()
 	t.prepareCursorStyles()
 	t.prepareUnderlines()
